@@ -43,8 +43,9 @@ def run():
     ck.reject('TraceIsa', res, key_of)
     # semantics that only show between instructions (a rounding mode set by CFROUND governs later FP instructions, also when a taken
     # CBRANCH re-executes them; last-writer bookkeeping of no-op forms): short loop programs executed by the interpreter and by RxVm
-    recs = c04.record_vm(ck, wd, ['branch'], extra_args=['--np', '600' if ck.thorough else '160'])
-    seq = [l for l in recs['branch'] if not l.startswith('{"e":"run"') or '"engine":"interp"' in l]
+    recs = c04.record_vm(ck, wd, ['branch', 'sweep'], extra_args=['--np', '600' if ck.thorough else '160'])
+    # (the sweep programs - every instruction kind x {src = dst, src != dst} x boundary immediates - keep all four engines)
+    seq = [l for l in recs['branch'] if not l.startswith('{"e":"run"') or '"engine":"interp"' in l] + recs['sweep']
     c04.validate_vm(ck, 'c05seq', seq, 'loop programs (re-executed bodies with FP instructions and CFROUND, value-preserving writers, no-op IMUL_RCP) executed by the interpreter and by the TLA+ VM')
     ck.cov['loop_programs'] = sum(1 for l in seq if '"first":true' in l)
     kinds, ops = {}, set()
